@@ -186,6 +186,14 @@ def run_history(case):
         for stp in case["steps"]:
             n += 1
             op = stp["op"]
+            if op in ("addlink", "dellink"):
+                # a dangling symbolic link below r/d (the listing of r and r/d raises while it is there)
+                lp = os.path.join(base, "r", "d", "zz-dangling")
+                if op == "addlink" and not os.path.lexists(lp):
+                    os.symlink(os.path.join(base, "nowhere", "gone"), lp)
+                elif op == "dellink" and os.path.lexists(lp):
+                    os.remove(lp)
+                continue
             if op in ("add", "delete", "grow", "shrink", "rewrite", "rewritekeep"):
                 key = stp["file"]
                 if op == "rewritekeep":
